@@ -400,7 +400,12 @@ func generate(r *kit.Rng, maxStmts int) *Set {
 		fmt.Fprintf(&mb, "  import %s { prefix %s; }\n", n, n)
 	}
 	nSub := r.Range(0, 2)
+	// with two submodules, s2 may be included by s1 instead of by the main module
+	nested := nSub == 2 && r.Chance(1, 2)
 	for i := 1; i <= nSub; i++ {
+		if nested && i == 2 {
+			continue
+		}
 		fmt.Fprintf(&mb, "  include s%d;\n", i)
 	}
 	mb.WriteString("  organization \"o\"; contact \"c\"; description \"main\";\n  revision 2024-02-02;\n  revision 2023-01-01;\n")
@@ -518,8 +523,24 @@ func generate(r *kit.Rng, maxStmts int) *Set {
 		for _, n := range impNames {
 			fmt.Fprintf(&b, "  import %s { prefix %s; }\n", n, n)
 		}
+		if nested && i == 1 {
+			b.WriteString("  include s2;\n")
+		}
 		fmt.Fprintf(&b, "  typedef %s { type string; }\n  identity %s;\n  feature %s;\n", g.id("t"), g.id("id"), g.id("ft"))
+		saveT := g.tdefs
+		if nested && i == 2 {
+			// a submodule reached only through another submodule's include does not
+			// see the main module's own typedefs in this library (nor in YANG 1.0)
+			var vis []string
+			for _, t := range g.tdefs {
+				if strings.Contains(t, ":") {
+					vis = append(vis, t)
+				}
+			}
+			g.tdefs = vis
+		}
 		body := g.body(1, false)
+		g.tdefs = saveT
 		emit(&b, 1, body)
 		b.WriteString("}\n")
 		set.Files[fmt.Sprintf("s%d", i)] = b.String()
